@@ -49,6 +49,9 @@ func verifHarness_C18_message() {
 	m := vMsg()
 	index := nondetU64()
 	verifAssume(index != 0)
+	// the network-wide id offset (-message_offset) is arbitrary: callers pass an id that already
+	// includes it, so decoding must not depend on it
+	MessageOffset = nondetU64()
 	// both protobuf encoders agree field by field
 	a := m.ProtoMessage()
 	b := &pb.RobustMessage{Id: &pb.RobustId{}, Session: &pb.RobustId{}}
